@@ -270,7 +270,8 @@ pub fn scenarios(tier: Tier) -> Vec<Scenario> {
         // wide scenarios (more than three senders): every non-default choice counts as a deviation
         cfg.strict_deviations = p.seqs.len() > 3;
         // in-process build: a blocking receiver is also explored up to parking (not the polling ones)
-        cfg.yield_alts = cfg!(feature = "inproc") && !matches!(p.mode, RecvMode::Polling | RecvMode::TimedPolling);
+        // (two senders only: with three the free choices at every yield already multiply)
+        cfg.yield_alts = cfg!(feature = "inproc") && p.seqs.len() <= 2 && !matches!(p.mode, RecvMode::Polling | RecvMode::TimedPolling);
         Scenario::new(name, cfg, bound, move || body(&p))
     }).collect()
 }
